@@ -117,6 +117,19 @@ def rand_array_actions(rnd, n):
             lo.append(a)
             hi.append(b)
         return lo, hi
+    def probes(size, lowest=None):
+        """Coordinates inside and outside a view of the given size; `lowest` (shifted views): the smallest
+        coordinate per axis for which C++ % is still a modulo (where + size + shift >= 0)."""
+        out = []
+        for _ in range(rnd.randint(3, 8)):
+            c = []
+            for i in range(3):
+                lo = -3 if lowest is None else max(-3, lowest[i])
+                c.append(rnd.choice([lo, -1, 0, size[i] - 1, size[i], size[i] + 2, rnd.randint(lo, size[i] + 2)]))
+                if c[-1] < lo:
+                    c[-1] = lo
+            out.append(c)
+        return out
     shifts = [[rnd.randint(-d[i], 2 * d[i]) for i in range(3)] for _ in range(3)]
     boxes = [box() for _ in range(3)]
     planes = [[rnd.randrange(d[2]) for _ in range(rnd.randint(1, 3))] for _ in range(2)]
@@ -135,14 +148,16 @@ def rand_array_actions(rnd, n):
         elif x < 0.72:
             acts.append({"a": "RangeWhole", "arg": []})
         elif x < 0.82:
-            acts.append({"a": "ViewShift", "arg": {"s": rnd.choice(shifts)}})
+            sh = rnd.choice(shifts)
+            acts.append({"a": "ViewShift", "arg": {"s": sh, "probes": probes(d, [-(d[i] + sh[i]) for i in range(3)])}})
         elif x < 0.90:
             lo, hi = rnd.choice(boxes)
-            acts.append({"a": "ViewSub", "arg": {"lo": lo, "hi": hi}})
+            acts.append({"a": "ViewSub", "arg": {"lo": lo, "hi": hi, "probes": probes([hi[i] - lo[i] for i in range(3)])}})
         elif x < 0.95:
-            acts.append({"a": "ViewSlices", "arg": {"ps": rnd.choice(planes)}})
+            ps = rnd.choice(planes)
+            acts.append({"a": "ViewSlices", "arg": {"ps": ps, "probes": probes([d[0], d[1], len(ps)])}})
         else:
-            acts.append({"a": "ViewAcc", "arg": []})
+            acts.append({"a": "ViewAcc", "arg": {"probes": probes(d)}})
     return acts
 
 
@@ -252,15 +267,57 @@ def run(chk, replay=None):
         "flattened order = first coordinate fastest (the documented layout of rkcommon arrays); the driver reports tables in that order",
         "TLC explores the bounded domains completely; larger extents are covered by seeded random tables validated against the laws and by the fixed + random list of huge extents",
         "values beyond 2^31 are exchanged as base-2^15 digit sequences; the limb arithmetic is checked by TLC against integer arithmetic where both exist and by algebraic laws beyond",
-        "adaptors are given a meaning only for coordinates inside their size(); shifts >= -extent (the domain in which C++ % agrees with mod); non-empty regions for getValueRange",
+        "outside their size() the adaptors mean what their code defines: sub-box and accessor forward to the (clamping) underlying array, MultiSlice clamps z to the slice range, "
+        "a shift wraps; left unconstrained: a shifted array handed where + size + shift < 0 (C++ % negative), shifts < -extent, coordinates near 2^31 through shift / sub-box "
+        "(int overflow in where + lower), getValueRange of empty regions",
     ]
     if replay:
         return do_replay(chk, replay)
     s = "" if quick else "_thorough"
-    # 1. design level
-    model_checks(chk, quick)
+    # 1. design level (in a second thread: the TLC runs do not depend on the driver work below)
+    import threading
+    mc_err = []
 
+    def mc():
+        try:
+            model_checks(chk, quick)
+        except BaseException as ex:      # re-raised in the main thread
+            mc_err.append(ex)
+    mc_thread = threading.Thread(target=mc)
+    mc_thread.start()
+    try:
+        _run_conformance(chk, quick, rnd, s)
+    finally:
+        mc_thread.join()
+    if mc_err:
+        raise mc_err[0]
+
+
+def _run_conformance(chk, quick, rnd, s):
     exe = build.build("drv_array3d", san="address,undefined")
+    # the state graph of the ActualArray3D machine is built by TLC while the functional cases are generated and replayed
+    import threading
+    gen = {}
+
+    def gen_graph():
+        try:
+            budget = 20000 if quick else 400000
+            gen["res"] = adtcheck.gen_histories(chk, SPEC, "Array3DLaws", "Array3DGen%s.cfg" % s, budget, 5,
+                                                walks=1500 if quick else 15000, walk_len=40, seed=chk.seed, mutators=MUT, tag="c17-adt")
+        except BaseException as ex:
+            gen["err"] = ex
+    gen_thread = threading.Thread(target=gen_graph)
+    gen_thread.start()
+    try:
+        _run_cases(chk, quick, rnd, s, exe)
+    finally:
+        gen_thread.join()
+    if "err" in gen:
+        raise gen["err"]
+    _run_machine(chk, quick, rnd, s, exe, gen["res"])
+
+
+def _run_cases(chk, quick, rnd, s, exe):
 
     # 2. functional cases: small extents, complete tables
     cases = funcheck.gen_cases(chk, SPEC, "IndexMapsGen", "IndexMapsGen%s.cfg" % s, "c17-maps",
@@ -324,6 +381,36 @@ def run(chk, replay=None):
     if ne:
         chk.note("outside the statement (recorded only): getValueRange of an empty region returned a NON-empty range (the value at the clamped begin) for %d empty regions" % ne)
 
+    # vacuity guard: every adaptor kind is queried with a negative coordinate on each axis (and beyond the size)
+    neg = {}
+    for c in inside:
+        if c["a"] != "View":
+            continue
+        kinds = set()
+        def walk(e):
+            if isinstance(e, list):
+                for x in e:
+                    walk(x)
+            else:
+                kinds.add(e["k"])
+                if "of" in e:
+                    walk(e["of"])
+        walk(c["arg"]["e"])
+        vs = c["exp"]["vsize"]
+        for k in kinds - {"actual"}:
+            st = neg.setdefault(k, {"neg": [0, 0, 0], "beyond": [0, 0, 0], "regions_below_0": 0})
+            for pc in c["arg"]["probes"]:
+                for i in range(3):
+                    if pc[i] < 0:
+                        st["neg"][i] += 1
+                    if pc[i] >= vs[i]:
+                        st["beyond"][i] += 1
+            st["regions_below_0"] += sum(1 for r in c["arg"]["oregions"] if min(r[0]) < 0)
+    chk.cov["adaptor_gets_outside_size"] = neg
+    for k in ("shift", "sub", "acc", "slices"):
+        st = neg.get(k)
+        if not st or min(st["neg"]) == 0 or min(st["beyond"]) == 0 or st["regions_below_0"] == 0:
+            raise tla.InfraError("vacuity guard: adaptor %s never queried with a negative / beyond-size coordinate on every axis: %s" % (k, st))
     chk.require_actions(["Seq2", "Seq3", "Arr3", "ForEach", "BigSeq3", "BigSeq2", "BigArr3", "BigIter3", "Actual", "Ranges", "View"])
     for cls in ("shift", "shift>ext", "sub", "acc", "slices", "shift.sub", "sub.shift", "sub.sub", "shift.shift", "slices.sub", "acc.shift", "shift.slices"):
         if not chk.cov["adaptor_cases_by_class"].get(cls):
@@ -332,10 +419,11 @@ def run(chk, replay=None):
         if not chk.cov["huge_extent_cases_by_class"].get(cls):
             raise tla.InfraError("vacuity guard: no huge-extent case of class %s" % cls)
 
+
+
+def _run_machine(chk, quick, rnd, s, exe, gen_result):
     # 5. the ActualArray3D state machine with live views: spec -> code
-    budget = 20000 if quick else 400000
-    hs, info, ag = adtcheck.gen_histories(chk, SPEC, "Array3DLaws", "Array3DGen%s.cfg" % s, budget, 5,
-                                          walks=1500 if quick else 15000, walk_len=40, seed=chk.seed, mutators=MUT, tag="c17-adt")
+    hs, info, ag = gen_result
     chk.count_actions(hs)
     chk.require_actions(["New", "Set", "Clear", "Get", "Range", "RangeWhole", "ViewShift", "ViewSub", "ViewAcc", "ViewSlices"])
     chk.cov["generation_Array3D"] = info
